@@ -53,14 +53,19 @@ func runC30(c *Ctx) {
 			setsRT := false
 			for _, b := range fn.Blocks {
 				for _, in := range b.Instrs {
-					switch x := in.(type) {
-					case *ssa.MakeSlice:
-						if strings.HasSuffix(x.Type().String(), "mesh.tile") {
-							allocs = true
-						}
-					case *ssa.Store:
-						if fo := FieldOf(x.Addr); fo != nil && fo.Name() == "rt" && !isNilConst(x.Val) {
-							setsRT = true
+					if x, ok := in.(*ssa.MakeSlice); ok && strings.HasSuffix(x.Type().String(), "mesh.tile") {
+						allocs = true
+					}
+				}
+			}
+			// the table may be assigned by the allocating function or by a helper it calls
+			for g := range p.ModCG().Reach([]*ssa.Function{fn}, func(h *ssa.Function) bool { return pkgOfFn(h) == pkgPath("noc/networking/mesh") }) {
+				for _, b := range g.Blocks {
+					for _, in := range b.Instrs {
+						if x, ok := in.(*ssa.Store); ok {
+							if fo := FieldOf(x.Addr); fo != nil && fo.Name() == "rt" && !isNilConst(x.Val) {
+								setsRT = true
+							}
 						}
 					}
 				}
